@@ -62,89 +62,143 @@ TOLSETS = {
 }
 
 
-def build_manager(spec, unit, tols):
-    import logging
-    import WallGo
-    from WallGo import Fields, GenericModel, Particle
-    u = unit
-    if spec["kind"] == "yukawa":
-        p = dict(sigma=spec["sigma"] * u ** 3, msq=spec["msq"] * u ** 2,
-                 gamma=spec["gamma"] * u, lam=spec["lam"], y=spec["y"], mf=spec["mf"] * u)
+class Setup:
+    """One model object (and optionally one manager) that can be presented in several unit
+    systems in turn: `present(u)` rescales every dimensionful parameter of the SAME potential
+    object; `setup(u)` calls setupThermodynamicsHydrodynamics with rescaled inputs."""
 
-        class Pot(WallGo.EffectivePotential):
-            fieldCount = 1
-            effectivePotentialError = 1e-15
+    def __init__(self, spec, tols):
+        import WallGo
+        from WallGo import Fields, GenericModel, Particle
+        self.spec, self.tols = spec, tols
+        self.unit = None
+        self.manager = None
+        st = self
 
-            def evaluate(self, fields, temperature):
-                fields = Fields(fields)
-                phi = fields.getField(0)
-                f0 = -np.pi ** 2 / 90 * (1 + 4 * 7 / 8) * temperature ** 4
-                sigmaEff = p["sigma"] + (p["gamma"] + 4 * p["y"] * p["mf"]) * \
-                    temperature ** 2 / 24
-                msqEff = p["msq"] + (p["lam"] + 4 * p["y"] ** 2) * temperature ** 2 / 24
-                return np.array(f0 + sigmaEff * phi + msqEff * phi ** 2 / 2
-                                + p["gamma"] * phi ** 3 / 6 + p["lam"] * phi ** 4 / 24)
-        pot = Pot()
-        ph1, ph2 = spec["phase1"] * u, spec["phase2"] * u
+        if spec["kind"] == "yukawa":
+            p = self.p = {}
 
-        def msq(fields):
-            return (p["mf"] + p["y"] * fields.getField(0)) ** 2
+            class Pot(WallGo.EffectivePotential):
+                fieldCount = 1
+                effectivePotentialError = 1e-15
 
-        def dmsq(fields):
-            return 2 * p["y"] * (p["mf"] + p["y"] * fields.getField(0))
-    else:
-        pot = wgmodels.quartic1(D=spec["D"], E=spec["E"], lam=spec["lam"], T0=spec["T0"],
-                                g=spec["g"], unit=u)
-        ex = wgmodels.quartic1_exact(**pot.params)
-        ph1, ph2 = 0.0, ex["phi_broken"](spec["Tn"] * u)
+                def evaluate(self, fields, temperature):
+                    fields = Fields(fields)
+                    phi = fields.getField(0)
+                    f0 = -np.pi ** 2 / 90 * (1 + 4 * 7 / 8) * temperature ** 4
+                    sigmaEff = p["sigma"] + (p["gamma"] + 4 * p["y"] * p["mf"]) * \
+                        temperature ** 2 / 24
+                    msqEff = p["msq"] + (p["lam"] + 4 * p["y"] ** 2) * temperature ** 2 / 24
+                    return np.array(f0 + sigmaEff * phi + msqEff * phi ** 2 / 2
+                                    + p["gamma"] * phi ** 3 / 6 + p["lam"] * phi ** 4 / 24)
+            pot = Pot()
 
-        def msq(fields):
-            return 0.25 * fields.getField(0) ** 2
+            def msq(fields):
+                return (p["mf"] + p["y"] * fields.getField(0)) ** 2
 
-        def dmsq(fields):
-            return 0.5 * fields.getField(0)
+            def dmsq(fields):
+                return 2 * p["y"] * (p["mf"] + p["y"] * fields.getField(0))
+        else:
+            q = self.p = {}
 
-    class Model(GenericModel):
-        def __init__(self):
-            self.effectivePotential = pot
-            self.clearParticles()
-            self.addParticle(Particle("top", index=1, msqVacuum=msq, msqDerivative=dmsq,
-                                      statistics="Fermion", totalDOFs=12))
+            class Pot(WallGo.EffectivePotential):
+                fieldCount = 1
+                effectivePotentialError = 1e-15
 
-        @property
-        def fieldCount(self):
-            return 1
+                def evaluate(self, fields, temperature):
+                    fields = Fields(fields)
+                    phi = fields.getField(0)
+                    T = np.asarray(temperature)
+                    return (q["D"] * (T ** 2 - q["T0"] ** 2) * phi ** 2 - q["E"] * T * phi ** 3
+                            + q["lam"] / 4 * phi ** 4 - q["g"] * math.pi ** 2 / 90 * T ** 4)
+            pot = Pot()
 
-        def getEffectivePotential(self):
-            return self.effectivePotential
+            def msq(fields):
+                return 0.25 * fields.getField(0) ** 2
 
-    manager = WallGo.WallGoManager()
-    manager.setVerbosity(logging.ERROR)
-    manager.config.configGrid.spatialGridSize = 20
-    manager.config.configEOM.maxIterations = 25
-    manager.config.configEOM.errTol = tols["errTol"]
-    manager.config.configThermodynamics.phaseTracerTol = tols["phaseTracerTol"]
-    manager.config.configHydrodynamics.relativeTol = tols["hydroRtol"]
-    manager.config.configHydrodynamics.absoluteTol = tols["hydroAtol"]
-    manager.registerModel(Model())
-    manager.setupThermodynamicsHydrodynamics(
-        WallGo.PhaseInfo(temperature=spec["Tn"] * u, phaseLocation1=Fields([ph1]),
-                         phaseLocation2=Fields([ph2])),
-        WallGo.VeffDerivativeSettings(temperatureVariationScale=spec["dTscale"] * u,
-                                      fieldValueVariationScale=[spec["phiscale"] * u]))
-    return manager
+            def dmsq(fields):
+                return 0.5 * fields.getField(0)
+
+        class Model(GenericModel):
+            def __init__(self):
+                self.effectivePotential = pot
+                self.clearParticles()
+                self.addParticle(Particle("top", index=1, msqVacuum=msq, msqDerivative=dmsq,
+                                          statistics="Fermion", totalDOFs=12))
+
+            @property
+            def fieldCount(self):
+                return 1
+
+            def getEffectivePotential(self):
+                return self.effectivePotential
+        self.pot = pot
+        self.model = Model()
+
+    def present(self, u):
+        spec = self.spec
+        self.unit = u
+        if spec["kind"] == "yukawa":
+            self.p.update(sigma=spec["sigma"] * u ** 3, msq=spec["msq"] * u ** 2,
+                          gamma=spec["gamma"] * u, lam=spec["lam"], y=spec["y"],
+                          mf=spec["mf"] * u)
+            self.ph1, self.ph2 = spec["phase1"] * u, spec["phase2"] * u
+        else:
+            self.p.update(D=spec["D"], E=spec["E"], lam=spec["lam"], T0=spec["T0"] * u,
+                          g=spec["g"])
+            ex = wgmodels.quartic1_exact(**self.p)
+            self.ph1, self.ph2 = 0.0, ex["phi_broken"](spec["Tn"] * u)
+
+    def new_manager(self):
+        import logging
+        import WallGo
+        tols = self.tols
+        manager = WallGo.WallGoManager()
+        manager.setVerbosity(logging.ERROR)
+        manager.config.configGrid.spatialGridSize = 20
+        manager.config.configEOM.maxIterations = 25
+        manager.config.configEOM.errTol = tols["errTol"]
+        manager.config.configThermodynamics.phaseTracerTol = tols["phaseTracerTol"]
+        manager.config.configHydrodynamics.relativeTol = tols["hydroRtol"]
+        manager.config.configHydrodynamics.absoluteTol = tols["hydroAtol"]
+        manager.registerModel(self.model)
+        self.manager = manager
+        return manager
+
+    def setup(self, u, reuse_manager=False):
+        import WallGo
+        from WallGo import Fields
+        spec = self.spec
+        self.present(u)
+        manager = self.manager if (reuse_manager and self.manager is not None) \
+            else self.new_manager()
+        manager.setupThermodynamicsHydrodynamics(
+            WallGo.PhaseInfo(temperature=spec["Tn"] * u, phaseLocation1=Fields([self.ph1]),
+                             phaseLocation2=Fields([self.ph2])),
+            WallGo.VeffDerivativeSettings(temperatureVariationScale=spec["dTscale"] * u,
+                                          fieldValueVariationScale=[spec["phiscale"] * u]))
+        return manager
 
 
 def solve_case(job):
     """job = (model name, unit, tolerance set name, stages). Returns a dict of outputs in
     the units of the run (dimensionful ones are rescaled by the caller)."""
-    name, unit, tolname, stages = job
+    name, unit, tolname, stages = job[:4]
+    # history: units in which the SAME model object (mode "model": fresh manager each time;
+    # mode "manager": the same manager too) was set up before the run that is reported
+    history, mode = (job[4], job[5]) if len(job) > 4 else ((), "model")
     spec, tols = MODELS[name], TOLSETS[tolname]
     t0 = time.time()
-    out = dict(model=name, unit=unit, tols=tolname)
+    out = dict(model=name, unit=unit, tols=tolname, history=list(history), mode=mode)
     try:
         import WallGo
-        manager = build_manager(spec, unit, tols)
+        st = Setup(spec, tols)
+        for h in history:
+            st.setup(h, reuse_manager=(mode == "manager"))
+        manager = st.setup(unit, reuse_manager=(mode == "manager"))
+        ds = st.pot.derivativeSettings
+        out["dTscale"] = float(ds.temperatureVariationScale)
+        out["phiscale"] = float(np.asarray(ds.fieldValueVariationScale).reshape(-1)[0])
         Tn = spec["Tn"] * unit
         th, hy = manager.thermodynamics, manager.hydrodynamics
         out.update(
@@ -196,7 +250,9 @@ JOUGUET_INSIDE = {"yukawa": False, "yukawa4": False, "quarticwide": True}
 DIMLESS = ["vw", "vwLTE", "vJ", "alphaN", "alpha", "csqHigh", "csqLow", "vMin", "offset",
            "muMinLowT", "csqLowExt"]
 DIMFUL = {"width": -1, "Tplus": 1, "Tminus": 1, "pHigh": 4, "pLow": 4, "dpHigh": 3,
-          "ddpLow": 2, "eHigh": 4, "wLow": 4, "TMinLowT": 1, "TMinHighT": 1, "pLowExt": 4}
+          "ddpLow": 2, "eHigh": 4, "wLow": 4, "TMinLowT": 1, "TMinHighT": 1, "pLowExt": 4,
+          # the finite-difference / tracer scales actually in use by the potential
+          "dTscale": 1, "phiscale": 1}
 
 
 def tolerance_for(q, tols):
@@ -213,6 +269,8 @@ def tolerance_for(q, tols):
         return max(10 * eT, 5e-3)
     if q in ("vwLTE", "vJ", "vMin"):
         return eos
+    if q in ("dTscale", "phiscale"):
+        return 1e-12             # inputs: must arrive unchanged
     if q in ("TMinLowT", "TMinHighT"):
         return 1e-2              # end of the traced range: set by the tracer's step
     if q in ("muMinLowT", "csqLowExt", "pLowExt"):
@@ -223,6 +281,10 @@ def tolerance_for(q, tols):
 def compare_runs(ctx, ref, run, tols, tolname):
     """dimensionless outputs equal, dimensionful ones scaled by lam^d"""
     name, lam = run["model"], run["unit"] / ref["unit"]
+    hist = dict(history=run.get("history", []), mode=run.get("mode", "model"))
+    if hist["history"]:
+        tolname = "%s; same %s first set up in units %s" % (
+            tolname, hist["mode"], ",".join("x%g" % h for h in hist["history"]))
     bad = []
     if ("raised" in ref) != ("raised" in run):
         r = run if "raised" in run else ref
@@ -230,8 +292,9 @@ def compare_runs(ctx, ref, run, tols, tolname):
             "%s [%s]: the run with unit factor %g raises (%s) while the run with unit "
             "factor %g succeeds" % (name, tolname, r["unit"], r["raised"],
                                     (ref if r is run else run)["unit"]),
-            dict(kind="metamorphic", model=name, tols=tolname, units=[ref["unit"], run["unit"]],
-                 quantity="raises", raised=r["raised"]), key="metamorphic:raises")
+            dict(kind="metamorphic", model=name, tols=run["tols"],
+                 units=[ref["unit"], run["unit"]], quantity="raises", raised=r["raised"],
+                 **hist), key="metamorphic:raises")
         return ["raises"]
     if "raised" in ref:
         return []
@@ -268,15 +331,15 @@ def compare_runs(ctx, ref, run, tols, tolname):
                 "%s [%s tolerances]: %s = %.10g in units x%g but %.10g (rescaled by "
                 "lam^%d) in units x%g: deviation %.3g > %.3g" % (
                     name, tolname, q, a, ref["unit"], b, d, run["unit"], dev, tol),
-                dict(kind="metamorphic", model=name, tols=tolname,
+                dict(kind="metamorphic", model=name, tols=run["tols"], **hist,
                      units=[ref["unit"], run["unit"]], quantity=q, reference=a, rescaled=b,
                      dimension=d, deviation=dev, tolerance=tol),
                 key="metamorphic:%s" % q)
-    if "success" in ref and ref["success"] != run["success"]:
+    if "success" in ref and "success" in run and ref["success"] != run["success"]:
         bad.append("success")
         ctx.fail_input("%s [%s]: success flag %s vs %s under unit factor %g" % (
             name, tolname, ref["success"], run["success"], lam),
-            dict(kind="metamorphic", model=name, tols=tolname,
+            dict(kind="metamorphic", model=name, tols=run["tols"], **hist,
                  units=[ref["unit"], run["unit"]], quantity="success"),
             key="metamorphic:success")
     return bad
@@ -650,7 +713,11 @@ def run(ctx):
             sha={f: vlib.sha(src[f]) for f in SRC_FILES}, spans=spans,
             preconditions_recorded=asserts))
         sites = gen_units.tolerance_sites(src)
-        ctx.write("Sites.v", gen_units.sites_coq(sites), sources=dict(
+        flows = gen_units.input_flows(src)
+        for f in flows:
+            if not f[2]:
+                ctx.log("input not consumed on every call: %s(%s)" % (f[0], f[1]))
+        ctx.write("Sites.v", gen_units.facts_coq(sites, flows), sources=dict(
             files=["src/WallGo/" + f for f in gen_units.SITE_FILES],
             sha={f: vlib.sha(src[f]) for f in gen_units.SITE_FILES}))
     except (pyrx.TranslateError, SyntaxError, KeyError, OSError) as e:
@@ -708,28 +775,53 @@ def run(ctx):
     else:
         plan = [(m, t, [1e-2, 1e-1, 10.0, 100.0], W) for m in ("yukawa", "quarticwide")
                 for t in ("default", "tight")] + [("yukawa4", "default", [1e-2, 100.0], W)]
+    # histories: the SAME model object (mode "model") or the same model and manager (mode
+    # "manager") set up in one unit system first and then presented in another; the last run
+    # must coincide with a fresh object presented in that unit system
+    if ctx.quick:
+        hplan = [("yukawa", "default", (1.0,), 1e-2, "model"),
+                 ("yukawa", "default", (1e-2,), 1.0, "manager")]
+    else:
+        hplan = [(m, "default", h, u, mode)
+                 for m in ("yukawa", "quarticwide") for mode in ("model", "manager")
+                 for h, u in (((1.0,), 1e-2), ((1e-2,), 1.0), ((100.0, 1e-2), 1.0))]
     jobs = []
     for m, t, units, stages in plan:
         for u in [1.0] + units:
             jobs.append((m, u, t, stages))
+    for m, t, h, u, mode in hplan:
+        if (m, u, t) not in [j[:3] for j in jobs]:
+            jobs.append((m, u, t, ()))
+        jobs.append((m, u, t, (), tuple(h), mode))
     t0 = time.time()
     with multiprocessing.Pool(min(len(jobs), 16)) as pool:
         results = pool.map(solve_case, jobs)
     ctx.log("metamorphic runs: %d solves in %.0fs" % (len(jobs), time.time() - t0))
-    byk = {(r["model"], r["tols"], r["unit"]): r for r in results}
+    byk = {(r["model"], r["tols"], r["unit"], tuple(r["history"]), r["mode"]): r
+           for r in results}
     for m, t, units, stages in plan:
-        ref = byk[(m, t, 1.0)]
+        ref = byk[(m, t, 1.0, (), "model")]
         if "raised" in ref:
             ctx.log("reference run raised:", m, t, ref["raised"])
         for u in units:
-            r = byk[(m, t, u)]
+            r = byk[(m, t, u, (), "model")]
             ctx.count("metamorphic_run", dict(model=m, tols=t, unit=u), bucket="unit=%g" % u)
             bad = compare_runs(ctx, ref, r, TOLSETS[t], t)
             ctx.log("metamorphic %-11s %-7s unit x%-6g %s  vw=%s width*Tn=%s (%.0fs)" % (
                 m, t, u, ("skipped " + bad[0]) if bad and bad[0].startswith("(") else
                 "DEVIATES in " + ",".join(bad) if bad else "covariant",
                 r.get("vw"), (r.get("width") or 0) * r.get("Tn", 0), r["seconds"]))
-    ctx.sample(dict(metamorphic_reference={k: v for k, v in byk[(plan[0][0], plan[0][1], 1.0)].items()
+    for m, t, h, u, mode in hplan:
+        ref = byk[(m, t, u, (), "model")]
+        r = byk[(m, t, u, tuple(h), mode)]
+        ctx.count("metamorphic_history", dict(model=m, history=h, unit=u, mode=mode),
+                  bucket="reuse=%s" % mode)
+        bad = compare_runs(ctx, ref, r, TOLSETS[t], t)
+        ctx.log("history     %-11s same %-7s units %s -> x%-6g vs fresh x%g: %s (%.0fs)" % (
+            m, mode, "->".join("x%g" % x for x in h), u, u,
+            ("skipped " + bad[0]) if bad and bad[0].startswith("(") else
+            "DEVIATES in " + ",".join(bad) if bad else "same as fresh", r["seconds"]))
+    ctx.sample(dict(metamorphic_reference={k: v for k, v in byk[(plan[0][0], plan[0][1], 1.0, (), "model")].items()
                                            if k not in ("trace",)}))
     ctx.cov["rule"] = (
         "formula level: random bag-like EOS / analytic free-energy tables / homogeneous "
@@ -752,8 +844,10 @@ def replay(rep):
     print(json.dumps({k: v for k, v in rep.items() if k != "trace"}, indent=1))
     if rep.get("kind") == "metamorphic":
         u0, u1 = rep["units"]
-        a = solve_case((rep["model"], u0, rep["tols"], ("lte", "wall")))
-        b = solve_case((rep["model"], u1, rep["tols"], ("lte", "wall")))
+        st = () if rep.get("history") else ("lte", "wall")
+        a = solve_case((rep["model"], u0, rep["tols"], st))
+        b = solve_case((rep["model"], u1, rep["tols"], st, tuple(rep.get("history", [])),
+                        rep.get("mode", "model")))
         for q in DIMLESS + list(DIMFUL):
             if q in a and q in b:
                 d = DIMFUL.get(q, 0)
